@@ -9,10 +9,9 @@ META = {
                    'to the result; R17.2 the winding-rule table is EvenOdd -> (count & 1) != 0, NonZero -> count != 0 on the path\'s own '
                    'winding and the result is inside || on_edge; R17.3 cursor law: WindState::close re-seats the cursor from the subpath '
                    'start on every path, the closing edge runs cursor -> start, a LineTo adds the edge cursor -> point and then moves the '
-                   'cursor, a LineTo without cursor starts a subpath.',
-    'decides': ['R17.1 implicit close', 'R17.2 winding-rule table and result', 'R17.3 cursor law of WindState'],
-    'does_not_decide': ['the crossing arithmetic of WindState::add_edge for points level with a vertex, collinear beyond an edge\'s ends, or on horizontal edges (planned as R17.4, order-domain interpretation; not built)',
-                        'agreement with fill on curved input (flattening tolerance)', 'float rounding of the side test'],
+                   'cursor, a LineTo without cursor starts a subpath; R17.4 WindState::add_edge, which touches its inputs only through comparisons and the sign of one cross product, is interpreted abstractly over all 81 orderings of the end points against the query point x every cross-product sign geometry allows: on_edge must be set exactly when the point is on the closed segment and the count must equal the leftward-ray crossing number under one half-open convention.',
+    'decides': ['R17.1 implicit close', 'R17.2 winding-rule table and result', 'R17.3 cursor law of WindState', 'R17.4 crossing logic of add_edge over the finite set of orderings'],
+    'does_not_decide': ['agreement with fill on curved input (flattening tolerance)', 'float rounding of the side test'],
     'assumptions': ['Path::flatten is correct (C16)'],
 }
 
@@ -114,6 +113,39 @@ def r17_3(ctx, b, m):
               'WindState::close does not move the cursor back to the subpath start (first_point) on every path: a line after Close starts at the last vertex instead of where fill continues from')
 
 
+def r17_4(ctx):
+    """crossing logic of WindState::add_edge over the finite set of orderings (A8)"""
+    import orderdom
+    R = 'R17.4'
+    b = ctx.body(WS + '::add_edge', R)
+    key = 'path_builder::Path::contains_point::WindState::add_edge'
+    try:
+        res, fails, on_fail = orderdom.analyse(b)
+    except orderdom.NotAnalysable as e:
+        ctx.fail(R, key + '|analysable', b.loc(), 'add_edge is no longer a function of comparisons and one cross-product sign that the order-domain interpreter understands (%s): cannot decide, fail closed' % e)
+        return
+    ctx.floor(R, 'ordering cases interpreted', len(res), 200)
+    if on_fail:
+        case, delta, on_code, on = on_fail[0]
+        ctx.fail(R, key + '|on_edge exact', b.loc(), 'on_edge is %s but the point is %son the segment in %d ordering case(s), e.g. %s (signs x1-X,x2-X,y1-Y,y2-Y,cross,dy = %s): points collinear with an edge beyond its ends / level with a horizontal edge are reported as contained'
+                 % (on_code, '' if on else 'not ', len(on_fail), case.witness(), case.key()))
+    else:
+        ctx.ok(R, key + '|on_edge exact', b.loc(), 'on_edge is set exactly when the point lies on the closed segment (all %d cases)' % len(res))
+    ok_k = [k2 for k2 in ('lower', 'upper') if not fails[k2]]
+    if ok_k:
+        ctx.ok(R, key + '|half-open crossing rule', b.loc(), 'crossing count equals the leftward-ray crossing number with the %s end point included (all %d cases)' % (ok_k[0], len(res)))
+    else:
+        k2 = min(fails, key=lambda x: len(fails[x]))
+        case, delta, want = fails[k2][0]
+        other = 'upper' if k2 == 'lower' else 'lower'
+        c2, d2, w2 = fails[other][0]
+        ctx.fail(R, key + '|half-open crossing rule', b.loc(),
+                 'no half-open convention explains the crossing count: with the lower end point included %d case(s) are wrong (e.g. %s: count %+d, expected %+d), with the upper end point included %d (e.g. %s: count %+d, expected %+d) — an edge end point level with the query point is counted by both edges that meet there, so a vertex to the left of the point flips the result'
+                 % (len(fails['lower']), fails['lower'][0][0].witness(), fails['lower'][0][1], fails['lower'][0][2], len(fails['upper']), fails['upper'][0][0].witness(), fails['upper'][0][1], fails['upper'][0][2]))
+    ctx.samples.append({'rule': R, 'instance': 'sample of interpreted cases', 'holds': True, 'at': b.loc(),
+                        'what': [{'signs(x1-X,x2-X,y1-Y,y2-Y,cross,dy)': list(k3), 'count_delta': v[1], 'on_edge': v[2]} for k3, v in list(res.items())[:12]]})
+
+
 def run(ctx):
     b = ctx.body(CP, 'R17')
     ms = matches(ctx, b, 'PathOp')
@@ -124,3 +156,5 @@ def run(ctx):
         r17_1(ctx, b, m)
         r17_3(ctx, b, m)
     r17_2(ctx, b)
+    import engine
+    engine.run_rules(ctx, [r17_4])
